@@ -22,7 +22,7 @@ fn parts() -> Vec<Box<dyn PartDyn>> {
     vec![
         Box::new(GenPart {
             name: "roundtrip",
-            quick: 30_000,
+            quick: 60_000,
             thorough: 800_000,
             shrink_iters: 600,
             strat: |t| gen::round(t),
@@ -30,7 +30,7 @@ fn parts() -> Vec<Box<dyn PartDyn>> {
         }),
         Box::new(GenPart {
             name: "oneshot",
-            quick: 8_000,
+            quick: 12_000,
             thorough: 150_000,
             shrink_iters: 600,
             strat: |t| gen::round_of_kind(Kind::Rs, t.pick(1200, 3000)),
@@ -38,7 +38,7 @@ fn parts() -> Vec<Box<dyn PartDyn>> {
         }),
         Box::new(GenPart {
             name: "corners",
-            quick: 16,
+            quick: 24,
             thorough: 1500,
             shrink_iters: 40,
             strat: corner_strategy,
